@@ -22,6 +22,12 @@ type c10Case struct {
 	Supersede int   `json:"supersede_ms"` // >0: a second CONNECT (restarting the exchange) this long after the last packet
 	Cut2      int   `json:"cut2"`
 	Shuffle   bool  `json:"shuffle"` // send the follow-up packets in reverse order (ill-formed exchange)
+	// Refused: "keepalive0" / "protocol" = after everything else a CONNECT which the gateway refuses
+	// at once (it opens no exchange) arrives RefusedMs later, while the half-open exchange is pending.
+	Refused   string `json:"refused,omitempty"`
+	RefusedMs int    `json:"refused_ms,omitempty"`
+	// Stalled: the broker has accepted the connection but does not read: the gateway's writes to it block.
+	Stalled bool `json:"stalled,omitempty"`
 }
 
 func c10Exchange(auth, will bool) []snref.Pkt {
@@ -47,12 +53,20 @@ func c10Gen(t *rapid.T) c10Case {
 		c.Cut2 = rapid.IntRange(1, n).Draw(t, "cut2")
 	}
 	c.Shuffle = rapid.IntRange(0, 4).Draw(t, "shuffle") == 0
+	if rapid.IntRange(0, 3).Draw(t, "refused_connect") == 0 {
+		c.Refused = rapid.SampledFrom([]string{"keepalive0", "protocol"}).Draw(t, "refused")
+		c.RefusedMs = rapid.SampledFrom([]int{0, 1, 100, 1000, 3000}).Draw(t, "refused_ms")
+	}
+	c.Stalled = rapid.IntRange(0, 4).Draw(t, "stalled") == 0
 	return c
 }
 
 func c10Script(c c10Case) (gwsim.Script, int) {
 	sc := gwsim.Script{Cfg: gwsim.Config{Auth: c.Auth, RetryDelayMs: 10000, RetryCount: 4}}
 	seq := c10Exchange(c.Auth, c.Will)
+	if c.Stalled {
+		sc.Steps = append(sc.Steps, gwsim.Step{K: "mqstall"})
+	}
 	send := func(cut int, gaps []int) {
 		pk := append([]snref.Pkt(nil), seq[:cut]...)
 		if c.Shuffle && len(pk) > 2 {
@@ -74,15 +88,26 @@ func c10Script(c c10Case) (gwsim.Script, int) {
 		lastConnect = len(sc.Steps)
 		send(c.Cut2, nil)
 	}
-	sc.TailMs = 7000
+	if c.Refused != "" {
+		if c.RefusedMs > 0 {
+			sc.Steps = append(sc.Steps, gwgen.Adv(int64(c.RefusedMs)))
+		}
+		p := gwgen.Connect("cl", 0, false, true)
+		if c.Refused == "protocol" {
+			p = gwgen.Connect("cl", 60, false, true)
+			p.ProtocolID = 2
+		}
+		sc.Steps = append(sc.Steps, gwgen.SN(p))
+	}
+	sc.TailMs = 9000
 	return sc, lastConnect
 }
 
 func TestC10(t *testing.T) {
 	vf.Check(t, vf.Prop[c10Case]{
 		ID: "C10", Name: "half-open-reaped", Bubble: true,
-		Rule: "connect exchanges (will x auth) cut after every prefix length, with drawn gaps between the packets (around the 100 ms poll), optionally superseded by a second CONNECT at a drawn time before the first timeout, optionally with the follow-up packets out of order; the broker never answers. All (variant, cut) combinations are also enumerated. Non-trivial = every case (each is a distinct half-open exchange); distinct by the case value.",
-		Assumptions: []string{"t0 is the virtual time of the session's last CONNECT datagram; bound = t0 + 5 s + 100 ms poll + 1 ms"},
+		Rule: "connect exchanges (will x auth) cut after every prefix length, with drawn gaps between the packets (around the 100 ms poll), optionally superseded by a second CONNECT at a drawn time before the first timeout, optionally with the follow-up packets out of order, optionally followed by a CONNECT which the gateway refuses at once (zero keep-alive, protocol ID 2) while the exchange is pending; the broker never answers, and in a fifth of the cases does not even read (the gateway's writes to it block). All (variant, cut) combinations are also enumerated. Non-trivial = every case (each is a distinct half-open exchange); distinct by the case value.",
+		Assumptions: []string{"t0 is the virtual time of the session's last CONNECT datagram (a refused one included: it may only make the bound later); bound = t0 + 5 s + 100 ms poll + 1 ms"},
 		Exhaustive: func(tier string, yield func(c10Case)) {
 			for _, auth := range []bool{false, true} {
 				for _, will := range []bool{false, true} {
@@ -116,8 +141,14 @@ func TestC10(t *testing.T) {
 			if c.Supersede > 0 {
 				r.Label("superseded")
 			}
+			if c.Refused != "" {
+				r.Label("refused-connect-while-pending")
+			}
+			if c.Stalled {
+				r.Label("broker-not-reading")
+			}
 			if !tr.Ended {
-				r.Fail("not-reaped", "session still running %d ms after the last CONNECT\n%s", 7000, tr.Dump(30))
+				r.Fail("not-reaped", "session still running %d ms after the last CONNECT\n%s", 9000, tr.Dump(30))
 				return
 			}
 			if tr.EndNs > t0+bound {
